@@ -586,6 +586,12 @@ func (x *c12exec) run(e common.Env, p *common.Part) *c12fail {
 			s1 := x.signers(rng)
 			s2 := x.signers(rng)
 			t2 := op.Topic + "-b"
+			// every second time both sessions sign the SAME digest (a payload submitted again under a fresh topic): whatever a
+			// session derives from the digest must not serve as an address of its state
+			d2 := t2
+			if op.Arg%2 == 1 {
+				d2 = op.Topic
+			}
 			x.pick(op.Topic, s1)
 			x.pick(t2, s2)
 			ctx, cancel := context.WithTimeout(context.Background(), x.dl(6000))
@@ -598,11 +604,14 @@ func (x *c12exec) run(e common.Env, p *common.Part) *c12fail {
 			}()
 			go func() {
 				defer wg.Done()
-				r2 = x.calls(s2, func(u uint16) ([]byte, error) { return x.sign(ctx, u, t2) })
+				r2 = x.calls(s2, func(u uint16) ([]byte, error) { return x.c.Schemes[u].Sign(ctx, digestFor(d2), t2) })
 			}()
 			wg.Wait()
 			cancel()
-			for _, w := range []string{checkSigs(r1, op.Topic), checkSigs(r2, t2)} {
+			if d2 == op.Topic {
+				p.Count("concurrent_topics_with_one_digest", 1)
+			}
+			for _, w := range []string{checkSigs(r1, op.Topic), checkSigs(r2, d2)} {
 				if w != "" {
 					return fail("concurrent-topics-interfere", w, strings.Contains(w, "deadline"))
 				}
@@ -877,7 +886,7 @@ func genC12(rng *rand.Rand, idx int, e common.Env) c12hist {
 }
 
 func unitC12(e common.Env, p *common.Part) {
-	p.Rule = "PRNG histories of 8..40 operations over 3..5 nodes and 2..4 topics on one cluster of real schemes (loud with real disc.Member, barrier, silent): successful / too-few-callers / cancelled KeyGen and Sign, cancellation with the continuation held at a verif point or inside the protocol instance's Init (between instance creation and handler registration), re-use of a topic the moment the previous call returned (continuation held after the result hand-off), two topics at once, a key generation and a signing session at once, duplicate Sign on a live topic, two Sign calls on one topic issued together at one node (brought into the admission step together by the consumer-supplied synchroniser factory), replay of a finished session's traffic, a key generation whose second synchronisation's traffic is lost and arrives after the call ended, a second KeyGen issued at a node while its first one is on its way out (slow log sink at the last message it logs), foreign-node and non-member traffic during a live session; every failed or cancelled operation is followed by a successful one on the same topic; distinct key = history hash; non-trivial when the history re-uses a topic, overlaps sessions or injects late/foreign traffic"
+	p.Rule = "PRNG histories of 8..40 operations over 3..5 nodes and 2..4 topics on one cluster of real schemes (loud with real disc.Member, barrier, silent): successful / too-few-callers / cancelled KeyGen and Sign, cancellation with the continuation held at a verif point or inside the protocol instance's Init (between instance creation and handler registration), re-use of a topic the moment the previous call returned (continuation held after the result hand-off), two topics at once (every second time with one and the same digest), a key generation and a signing session at once, duplicate Sign on a live topic, two Sign calls on one topic issued together at one node (brought into the admission step together by the consumer-supplied synchroniser factory), replay of a finished session's traffic, a key generation whose second synchronisation's traffic is lost and arrives after the call ended, a second KeyGen issued at a node while its first one is on its way out (slow log sink at the last message it logs), foreign-node and non-member traffic during a live session; every failed or cancelled operation is followed by a successful one on the same topic; distinct key = history hash; non-trivial when the history re-uses a topic, overlaps sessions or injects late/foreign traffic"
 	p.Assumptions = append(p.Assumptions, "silent-mode histories use a fresh topic per session (re-use in silent mode is the separate sub-oracle c12silent); expected failures use short deadlines, expected successes a 6 s watchdog with a replay of the whole history at 5x deadlines before a deadline is judged")
 	n := e.Pick(64, 4000)
 	for i := 0; i < n; i++ {
